@@ -77,6 +77,20 @@ CLAIMED = {
          "produce' uses that stub generation is a function of the decoded traces (C14); malformed rows (bad JSON, wrong arity) are outside the "
          "quantifier and proved to propagate (malformed_propagates)"),
    technique="Lean 4 proof (induction over the row list) over a hand-written model + differential correspondence check against the real CLI"),
+ "C09": dict(
+   text=("Lean 4 theorems over a state-machine model of the SQLite store (state = committed rows; add is one atomic step): for every "
+         "history a query returns min(n,d) distinct rows, each committed, with module exactly m and qualified name literally starting "
+         "with p (filter_spec, filter_complete); list_modules is exactly the set of modules with rows (listModules_spec); a batch adds all "
+         "its serialisable rows, unserialisable ones are skipped, an interrupted write adds none, reopening changes nothing, and the "
+         "answers are invariant under any reordering of whole batches across connections (mem_run, adds_commute, filter_set_commutes). "
+         "Tied to /repo by running the same histories on a real file-backed SQLiteStore through several connections, with SQLite "
+         "progress-handler aborts at every VM step of a batch, concurrent writer processes and writers SIGKILLed inside the insert; an "
+         "independent Python set oracle evaluates the property directly."),
+   ref="DESIGN.md section 4 C09",
+   note=("partial: that SQLite rolls back an interrupted/killed transaction and serialises concurrent writers is assumed by the theorems "
+         "(one add = one step) and observed on the real engine at enumerated points; which rows a LIMIT keeps under date ties is unspecified "
+         "and compared as subset+count"),
+   technique="Lean 4 proof (invariant / refinement to a list-of-rows spec by induction over the operation history) + differential correspondence on real SQLite"),
 }
 
 NOT_YET = "check not built yet (build in progress; see DESIGN.md section 10)"
